@@ -4,7 +4,7 @@ import json, shutil, sys
 from pathlib import Path
 OUT = Path("/tmp/seed/out"); SEEDED = Path("/verif/seeded")
 for d in sorted(OUT.iterdir()):
-    for x in "ABCDEFGHIJ":
+    for x in "ABCDEFGHIJKL":
         if (d / f"{x}.diff").exists() and (d / f"demo_{x}.py").exists() and (d / f"meta_{x}.json").exists():
             t = SEEDED / f"{d.name}-{x}"
             if t.exists():
